@@ -147,3 +147,19 @@ package respondent
 //@ func (*context).SendMsg
 //@   ensures sel("select#1") >= 0 ==> c.backtrace == at("select#1", c.backtrace) && c.recvPipe == at("select#1", c.recvPipe)
 //@   before select#1 assert c.recvPipe == nil && len(c.backtrace) == 0
+// ---- generated default contracts (tools/gen_default_contracts.py) ----
+//@ func NewProtocol
+//@   ensures cast("*socket", result).closed == false
+//@   ensures cast("*socket", result).ttl == 8
+//@   ensures cast("*socket", result).recvQLen == 128
+//@   ensures cast("*socket", result).sizeQ != nil && !closed(cast("*socket", result).sizeQ)
+//@   ensures cast("*socket", result).recvQ != nil && cap(cast("*socket", result).recvQ) == cast("*socket", result).recvQLen
+//@   ensures cast("*socket", result).closeQ != nil && !closed(cast("*socket", result).closeQ)
+//@   ensures cast("*socket", result).defCtx != nil && cast("*socket", result).defCtx.s == cast("*socket", result)
+//@   ensures cast("*socket", result).defCtx.closed == false
+//@   ensures cast("*socket", result).defCtx.recvExpire == 0
+//@   ensures cast("*socket", result).defCtx.sendExpire == 0
+//@   ensures cast("*socket", result).defCtx.bestEffort == false
+//@   ensures cast("*socket", result).defCtx.closeQ != nil && !closed(cast("*socket", result).defCtx.closeQ)
+//@
+// ---- end generated default contracts ----
